@@ -445,6 +445,9 @@ def run(ctx, P):
     n = f4.check_rename_taint(ctx, P, "C16h", only=lambda s: s.kind == "TXT")
     ctx.floor("C16h.F4.rename-args", n, 2, "TXT record constructors with a renamable name")
     clause_f(ctx, P)
+    from . import r4
+    r4.every_string_skipped_whole(ctx, P, "C16i")
+    r4.first_occurrence_wins_everywhere(ctx, P, "C16j")
     R = P      # (P.raw is the program as extracted; the numeric engine also runs on the normalised one)
     R.repo = P.repo
     clause_a(ctx, R)
